@@ -310,6 +310,26 @@ def check(run):
         specs, t, gamma, pts, psd = setup(rng, quick, lmax=2)
         gamma = -np.abs(gamma) @ np.abs(gamma).T * 0.01
         fields_case(run, specs, t, gamma, pts, "general", False, 0.25)
+    # every field is linear in the density matrix: matrices of small magnitude (response / difference densities, anything scaled
+    # by 1e-9 .. 1e-12) whose off-diagonal elements are tiny in absolute terms but not next to the diagonal
+    for n, scale in enumerate((1e-9, 1e-12, 1e-10) if quick else (1e-9, 1e-12, 1e-10, 1e-8, 1e-15, 1e-9)):
+        specs, t, gamma, pts, psd = setup(rng, quick, lmax=2)
+        gamma = random_symmetric(rng, gamma.shape[0], psd=True) * scale
+        fields_case(run, specs, t, gamma, pts, "general" if n % 2 else "direct", True, 0.5)
+        deriv_case(run, specs, t, gamma, pts, [(0, 0, 0), (1, 0, 1), (2, 0, 0)][n % 3], "general" if n % 2 == 0 else "direct")
+        run.count("density matrix of magnitude %g" % scale)
+    # generalized shells with structured coefficient matrices (several segmented contractions stored as one shell, ...)
+    from checks.common import structured_coefficient_shell
+    for n, kind in enumerate(("block-disjoint", "permutation", "shared-primitive") if quick else
+                             ("block-disjoint", "permutation", "shared-primitive", "diagonal", "triangular", "block-disjoint")):
+        sh = structured_coefficient_shell(rng, n % 3, kind, sph=bool(n % 2))
+        other = rand_shell(rng, (n + 1) % 2, [], nprim=2, nseg=1, exp_hi=10.0)
+        specs = [sh, other]
+        nb = sum(s_.size for s_ in specs)
+        pts = np.array([[core.snap(rng.uniform(-2, 2), 10) for _ in range(3)] for _ in range(2)] + [sh.center, [x + 0.25 for x in sh.center],
+                       [sh.center[0] - 0.5, sh.center[1] + 0.125, sh.center[2]]])
+        fields_case(run, specs, None, random_symmetric(rng, nb, psd=True), pts, "general" if n % 2 else "direct", True, 0.5)
+        run.count("coefficient matrix of %s type" % kind)
     from checks import c09 as _c09
     _c09.positional_arguments_case(run, rng, only=('density',))
     representation_cases(run)
